@@ -1161,8 +1161,14 @@ class Executor:
         self.unsupported('equality of %r and %r' % (a, b), node)
 
     def compare(self, op, a, b, node):
-        a, b = deref(a), deref(b)
         t = type(op)
+        if t in (ast.In, ast.NotIn):
+            # the container keeps its location (ChainMap-typed fields)
+            r = self.prelude.contains(self, b, deref(a), node)
+            if t is ast.NotIn:
+                r = (not r) if isinstance(r, bool) else z3.Not(r)
+            return Con(r) if isinstance(r, bool) else ZV(r)
+        a, b = deref(a), deref(b)
         if t in (ast.Eq, ast.Is):
             r = self.eq(a, b, node)
             return Con(r) if isinstance(r, bool) else ZV(r)
